@@ -167,6 +167,12 @@ func (s *supervisor) processDied(r *processorRequestDied) {
 
 	// Simple case: it was marked as Done and quit with no error.
 	if n.state == nodeStateDone && r.err == nil {
+		if ctx.Err() != nil {
+			// Its context was canceled (group or parent failure) while it was on its way out: it has to be
+			// restarted with the rest, just like a runnable that returned the context error.
+			n.state = nodeStateCanceled
+			return
+		}
 		// Do nothing. This was supposed to happen. Keep the process as DONE.
 		n.doneExited = true
 		return
@@ -214,6 +220,12 @@ func (s *supervisor) processDied(r *processorRequestDied) {
 			sibling := n.parent.children[name]
 			// TODO(q3k): does this need to run in a goroutine, ie. can a context cancel block?
 			sibling.ctxC()
+			// A sibling that is DONE and has already returned will never report the cancelation itself.
+			// Its context is dead now, so unless it is restarted with the group none of its children
+			// (which are being canceled through it) could ever be restarted.
+			if sibling.state == nodeStateDone && sibling.doneExited {
+				sibling.state = nodeStateCanceled
+			}
 		}
 	}
 }
